@@ -107,6 +107,19 @@ impl StatusCode {
     pub fn is_server_error(&self) -> (r: bool)
         ensures r == (500 <= code_of(*self) < 600),
     { unimplemented!() }
+    // ASSUMED (http-types): 100..=199, 200..=299, 300..=399
+    #[verifier::external_body]
+    pub fn is_informational(&self) -> (r: bool)
+        ensures r == (100 <= code_of(*self) < 200),
+    { unimplemented!() }
+    #[verifier::external_body]
+    pub fn is_success(&self) -> (r: bool)
+        ensures r == (200 <= code_of(*self) < 300),
+    { unimplemented!() }
+    #[verifier::external_body]
+    pub fn is_redirection(&self) -> (r: bool)
+        ensures r == (300 <= code_of(*self) < 400),
+    { unimplemented!() }
     // ASSUMED (Display for StatusCode)
     #[verifier::external_body]
     pub fn to_string(&self) -> (r: String)
@@ -324,6 +337,10 @@ impl ResponseAsync {
 //@extract id=HttpError file=crux_http/src/error.rs item="enum HttpError"
 //@end
 pub type Result<T> = core::result::Result<T, HttpError>;
+impl core::fmt::Debug for HttpError {
+    #[verifier::external_body]
+    fn fmt(&self, f: &mut core::fmt::Formatter<'_>) -> core::fmt::Result { unimplemented!() }
+}
 impl From<HttpTypesError> for HttpError {
     // ASSUMED (crux_http/src/error.rs: From<http_types::Error>)
     #[verifier::external_body]
@@ -351,11 +368,35 @@ pub tracked struct HW {
     pub ghost handled: Seq<(MwId, Sent, Seq<MwId>)>,
     /// requests given to the endpoint (the shell)
     pub ghost endpoint_calls: Seq<Sent>,
+    /// protocol requests the endpoint handed to the effect sender (what the shell sees), oldest first
+    pub ghost shell: Seq<HttpRequest>,
+    /// the shell's answers to them
+    pub ghost shell_answers: Seq<HttpResult>,
 }
 
-/// crux_http::Client as a middleware sees it
+/// `Arc<dyn EffectSender + Send + Sync>`
 #[verifier::external_body]
-pub struct Client { _p: u8 }
+pub struct ArcEffectSender { _p: u8 }
+impl ArcEffectSender {
+    // ASSUMED (EffectSender::send, async: CapabilityContext::request_from_shell): hands exactly this
+    // protocol request to the shell once and yields the shell's answer, whatever that is
+    #[verifier::external_body]
+    pub fn send(&self, Tracked(w): Tracked<&mut HW>, effect: HttpRequest) -> (r: HttpResult)
+        ensures
+            final(w).shell == old(w).shell.push(effect),
+            final(w).shell_answers == old(w).shell_answers.push(r),
+            final(w).probes == old(w).probes, final(w).answers == old(w).answers, final(w).forwarded == old(w).forwarded,
+            final(w).handled == old(w).handled, final(w).endpoint_calls == old(w).endpoint_calls,
+    { unimplemented!() }
+}
+#[verifier::external_body]
+pub struct ClientRest { _p: u8 }
+/// crux_http::Client as a middleware sees it
+pub struct Client { pub effect_sender: ArcEffectSender, pub rest: ClientRest }
+/// `Box::pin(async move { .. })` under X17: the block it runs
+pub fn pin_block<T>(t: T) -> (r: T)
+    ensures r == t,
+{ t }
 impl Client {
     // ASSUMED (Client::send, async; proved separately below for its own chain): sends the request
     // once and yields whatever the rest of the world answers
@@ -613,6 +654,26 @@ pub open spec fn header_pairs(h: Seq<HttpHeader>) -> Seq<(Seq<char>, Seq<char>)>
 //@entry
     broadcast use empty_body_reads_empty;
     let mut this = req;
+//@end
+
+// ------------------------------------------------------------------ the end of the chain: one trip to the shell
+//@extract id=Client::send::endpoint file=crux_http/src/client.rs within="impl Client" item="fn send" closure="Next::new\(&\w+, &" props=C14+C15+C16
+//@expect |req, client|
+//@sig fn endpoint(Tracked(w): Tracked<&mut HW>, req: Request, client: Client) -> (r: Result<ResponseAsync>)
+//@contract
+    requires
+        req.body_content() is Ok, // (a body that cannot be read panics here: `expect("Failed to create request")` - stated, not decided)
+    ensures
+        final(w).shell.len() == old(w).shell.len() + 1 && old(w).shell.is_prefix_of(final(w).shell), // [C14+C16/endpoint/the-shell-is-reached-exactly-once-per-invocation]
+        final(w).shell.last().method@ == method_text(req.method_s()) && final(w).shell.last().url@ == url_text(req.url_s()) && final(w).shell.last().body@ == req.body_content()->Ok_0 && header_pairs(final(w).shell.last().headers@) == req.header_pairs(), // [C14/endpoint/what-reaches-the-shell-is-exactly-the-request-it-was-given]
+        final(w).shell_answers.len() == old(w).shell_answers.len() + 1,
+        final(w).shell_answers.last() matches HttpResult::Err(e) ==> r == Err::<ResponseAsync, HttpError>(e), // [C15/endpoint/an-error-reported-by-the-shell-is-passed-through-unchanged]
+        final(w).shell_answers.last() matches HttpResult::Ok(res) ==> (r matches Ok(a) && a.inner().code() == res.status && a.inner().body_s() == res.body@ && a.inner().appended() == header_pairs(res.headers@)), // [C15/endpoint/a-response-from-the-shell-becomes-a-response-with-the-same-status-headers-and-body]
+//@rule X17.pin-async 1 s/Box::pin\(async move \{/pin_block({/
+//@rule X17.await * s/\s*\.await\b//
+//@rule X7.trait-method 1 s/(\w+)\s*\.into_protocol_request\(\)/into_protocol_request(\1)/
+//@rule X6.world 1 s/\.effect_sender\.send\(/.effect_sender.send(Tracked(w), /
+//@rule X7.into 1 s/Ok\((\w+)\.into\(\)\)/Ok(response_from(\1))/
 //@end
 
 } // verus!
